@@ -525,6 +525,13 @@ Fixpoint skip_ws (s : bytes) : bytes :=
 
 Definition all_ws (s : bytes) : bool := is_nil (skip_ws s).
 
+(* the rest of s if its first byte is c *)
+Definition hd_is (c : N) (s : bytes) : option bytes :=
+  match s with
+  | b :: r => if b =? c then Some r else None
+  | [] => None
+  end.
+
 Fixpoint span_digits (s : bytes) : bytes * bytes :=
   match s with
   | b :: r => if is_digit b then let (d, t) := span_digits r in (b :: d, t) else ([], s)
@@ -533,36 +540,52 @@ Fixpoint span_digits (s : bytes) : bytes * bytes :=
 
 (* JSON number: optional '-', then 0 or a digit string without leading 0, optional '.' digits,
    optional e/E with optional sign and digits; s starts at '-' or a digit *)
-Definition pnum (s : bytes) : option (numlit * bytes) :=
-  let (neg, s1) := match s with 45 :: r => (true, r) | _ => (false, s) end in
-  let (ip, s2) := span_digits s1 in
+Definition pfrac (s : bytes) : option (bytes * bytes) :=
+  match hd_is 46 s with
+  | Some r => let (fp, t) := span_digits r in if is_nil fp then None else Some (fp, t)
+  | None => Some ([], s)
+  end.
+
+Definition exp_mark (s : bytes) : option bytes :=
+  match hd_is 101 s with Some r => Some r | None => hd_is 69 s end.
+
+Definition exp_sign (r : bytes) : bool * bytes :=
+  match hd_is 45 r with
+  | Some r' => (true, r')
+  | None => match hd_is 43 r with
+            | Some r' => (false, r')
+            | None => (false, r)
+            end
+  end.
+
+Definition pexp (s : bytes) : option (option (bool * bytes) * bytes) :=
+  match exp_mark s with
+  | Some r =>
+      let (ep, t) := span_digits (snd (exp_sign r)) in
+      if is_nil ep then None else Some (Some (fst (exp_sign r), ep), t)
+  | None => Some (None, s)
+  end.
+
+Definition pnum_abs (neg : bool) (s : bytes) : option (numlit * bytes) :=
+  let (ip, s2) := span_digits s in
   match ip with
   | [] => None
   | d :: ds =>
       if (d =? 48) && negb (is_nil ds) then None      (* a digit after a leading 0 *)
-      else
-        let fr := match s2 with
-                  | 46 :: r => let (fp, s3) := span_digits r in
-                               if is_nil fp then None else Some (fp, s3)
-                  | _ => Some ([], s2)
-                  end in
-        match fr with
-        | None => None
-        | Some (fp, s3) =>
-            match s3 with
-            | c :: r =>
-                if (c =? 101) || (c =? 69) then
-                  let (eneg, r1) := match r with
-                                    | 45 :: r' => (true, r')
-                                    | 43 :: r' => (false, r')
-                                    | _ => (false, r)
-                                    end in
-                  let (ep, s4) := span_digits r1 in
-                  if is_nil ep then None else Some (mkNum neg ip fp (Some (eneg, ep)), s4)
-                else Some (mkNum neg ip fp None, s3)
-            | [] => Some (mkNum neg ip fp None, [])
-            end
-        end
+      else match pfrac s2 with
+           | None => None
+           | Some (fp, s3) =>
+               match pexp s3 with
+               | None => None
+               | Some (ex, t) => Some (mkNum neg (d :: ds) fp ex, t)
+               end
+           end
+  end.
+
+Definition pnum (s : bytes) : option (numlit * bytes) :=
+  match hd_is 45 s with
+  | Some r => pnum_abs true r
+  | None => pnum_abs false s
   end.
 
 (* string body after the opening quote: raw bytes up to the closing quote.  A backslash
@@ -620,8 +643,8 @@ Fixpoint unquote (fuel : nat) (s : bytes) : option bytes :=
                                           | Some t => Some (encode_rune x ++ t) | None => None end in
                       if (55296 <=? u) && (u <=? 57343) then
                         (* surrogate: needs \uDC00..\uDFFF right behind a high surrogate *)
-                        match r2 with
-                        | 92 :: 117 :: r3 =>
+                        match (match hd_is 92 r2 with Some x => hd_is 117 x | None => None end) with
+                        | Some r3 =>
                             match hex4 r3 with
                             | Some (u2, r4) =>
                                 if (u <? 56320) && (56320 <=? u2) && (u2 <=? 57343)
@@ -629,7 +652,7 @@ Fixpoint unquote (fuel : nat) (s : bytes) : option bytes :=
                                 else plain 65533 r2
                             | None => plain 65533 r2
                             end
-                        | _ => plain 65533 r2
+                        | None => plain 65533 r2
                         end
                       else plain u r2
                   end
@@ -664,14 +687,14 @@ Fixpoint pv (fuel : nat) (s : bytes) : option (jv * bytes) :=
       | [] => None
       | b :: r =>
           if b =? 123 then
-            match skip_ws r with
-            | 125 :: r' => Some (JObj [], r')
-            | _ => pmem f r []
+            match hd_is 125 (skip_ws r) with
+            | Some r' => Some (JObj [], r')
+            | None => pmem f r []
             end
           else if b =? 91 then
-            match skip_ws r with
-            | 93 :: r' => Some (JArr [], r')
-            | _ => pelems f r []
+            match hd_is 93 (skip_ws r) with
+            | Some r' => Some (JArr [], r')
+            | None => pelems f r []
             end
           else if b =? 34 then
             match pstring r with Some (t, r') => Some (JStr t, r') | None => None end
@@ -687,26 +710,29 @@ with pmem (fuel : nat) (s : bytes) (acc : list (bytes * jv)) : option (jv * byte
   match fuel with
   | O => None
   | S f =>
-      match skip_ws s with
-      | 34 :: r =>
+      match hd_is 34 (skip_ws s) with
+      | Some r =>
           match pstring r with
           | Some (k, r1) =>
-              match skip_ws r1 with
-              | 58 :: r2 =>
+              match hd_is 58 (skip_ws r1) with
+              | Some r2 =>
                   match pv f r2 with
                   | Some (v, r3) =>
-                      match skip_ws r3 with
-                      | 44 :: r4 => pmem f r4 ((k, v) :: acc)
-                      | 125 :: r4 => Some (JObj (rev ((k, v) :: acc)), r4)
-                      | _ => None
+                      match hd_is 44 (skip_ws r3) with
+                      | Some r4 => pmem f r4 ((k, v) :: acc)
+                      | None =>
+                          match hd_is 125 (skip_ws r3) with
+                          | Some r4 => Some (JObj (rev ((k, v) :: acc)), r4)
+                          | None => None
+                          end
                       end
                   | None => None
                   end
-              | _ => None
+              | None => None
               end
           | None => None
           end
-      | _ => None
+      | None => None
       end
   end
 with pelems (fuel : nat) (s : bytes) (acc : list jv) : option (jv * bytes) :=
@@ -715,10 +741,13 @@ with pelems (fuel : nat) (s : bytes) (acc : list jv) : option (jv * bytes) :=
   | S f =>
       match pv f s with
       | Some (v, r1) =>
-          match skip_ws r1 with
-          | 44 :: r2 => pelems f r2 (v :: acc)
-          | 93 :: r2 => Some (JArr (rev (v :: acc)), r2)
-          | _ => None
+          match hd_is 44 (skip_ws r1) with
+          | Some r2 => pelems f r2 (v :: acc)
+          | None =>
+              match hd_is 93 (skip_ws r1) with
+              | Some r2 => Some (JArr (rev (v :: acc)), r2)
+              | None => None
+              end
           end
       | None => None
       end
@@ -783,6 +812,27 @@ Definition float_of_num (n : numlit) : option fval :=
     else if (dp <? -330)%Z then Some (FNum (nl_neg n) 0 0%Z)
     else if (0 <=? e')%Z && (float_overflow_threshold <=? Z.of_N m' * 10 ^ e')%Z then None
     else Some (FNum (nl_neg n) m' e').
+
+Definition fval_eqb (a b : fval) : bool :=
+  match a, b with
+  | FNaN, FNaN => true
+  | FInf x, FInf y => Bool.eqb x y
+  | FNum x m e, FNum y m' e' => Bool.eqb x y && (m =? m') && (e =? e')%Z
+  | _, _ => false
+  end.
+
+(* the float survives the JSON text: FormatFloat output is scanned as one number and
+   ParseFloat gives the value back (decidable; holds for the decimals that are shortest
+   representations of finite float64 values, see the assumption in lib/props.py) *)
+Definition float_okb (f : fval) : bool :=
+  match fmt_float f with
+  | Some txt =>
+      match pnum txt with
+      | Some (nl, []) => match float_of_num nl with Some f' => fval_eqb f f' | None => false end
+      | _ => false
+      end
+  | None => false
+  end.
 
 (* one object member stored into the struct; the flag records a saved UnmarshalTypeError *)
 Definition apply_member (st : config * bool) (kv : bytes * jv) : config * bool :=
